@@ -297,6 +297,71 @@ def law_mixed(ch):
     ch.mark_nontrivial(True)
 
 
+def law_linalg(ch):
+    """decompositions on generated matrices (Hermitian with size-one
+    sectors, square systems, general) at all four dtypes"""
+    import symmray as sr
+
+    dtype = ch.choice(DTYPES, "dtype")
+    ferm = ch.boolean("ferm")
+    kind = ch.choice(["eigh", "eigh", "qr", "svd", "svd_truncated", "solve"],
+                     "kind")
+    syms = gen.SYMS4 if ferm else ALLSYMS
+    with warnings.catch_warnings():
+        warnings.simplefilter("error", np.exceptions.ComplexWarning)
+        if kind == "eigh":
+            spec = ch.draw(gen.matrix_specs(ferm=ferm, hermitian=True,
+                                            syms=syms, dtype=dtype,
+                                            max_size=3, lazy=False), "m")
+            x = gen.build(spec)
+            if not x.blocks:
+                return
+            if ferm:
+                x = must(lambda: x + x.H, what="x+x.H")
+            r = must(sr.linalg.eigh, x, what="eigh")
+            expect_dtype("eigh", dtype, r, "eigh")
+            el, ev = r
+            rec = must(lambda: sr.multiply_diagonal(ev, el, 1) @ ev.H,
+                       what="reconstruct")
+            require(block_dtypes(rec) <= {dtype}, "eigh:reconstruction-dtype",
+                    lambda: f"{sorted(block_dtypes(rec))} for {dtype} data")
+        elif kind == "solve":
+            spec = ch.draw(gen.matrix_specs(ferm=False, square=True,
+                                            syms=ALLSYMS, dtype=dtype), "a")
+            a = gen.build(spec)
+            ix0 = spec["idxs"][0]
+            c_b = ch.choice(sorted(ix0["cm"]), "b-sector")
+            bspec = ch.draw(gen.array_specs(
+                symm=spec["symm"], ferm=False, idxs=[ix0],
+                charge=G.signed(spec["symm"], c_b, ix0["dual"]),
+                dyn=spec["dyn"], dtype=dtype, data="gauss"), "b")
+            b = gen.build(bspec)
+            if not a.blocks or not b.blocks:
+                return
+            r = must(sr.linalg.solve, a, b, what="solve")
+            expect_dtype("solve", dtype, r, "solve")
+        else:
+            spec = ch.draw(gen.matrix_specs(ferm=ferm, syms=syms, dtype=dtype,
+                                            max_size=3), "m")
+            x = gen.build(spec)
+            if not x.blocks:
+                return
+            if kind == "qr":
+                r = must(sr.linalg.qr, x, stabilized=ch.boolean("stab"),
+                         what="qr")
+            elif kind == "svd":
+                r = must(sr.linalg.svd, x, what="svd")
+            else:
+                r = must(sr.linalg.svd_truncated, x, max_bond=ch.choice(
+                    [-1, 1, 2], "max_bond"), cutoff=ch.choice(
+                    [-1.0, 1e-6], "cutoff"), absorb=ch.choice(
+                    [None, 0, -1, 1], "absorb"), what="svd_truncated")
+            expect_dtype(kind, dtype, r, kind)
+    ch.label(f"kind={kind}")
+    ch.label(f"dtype={dtype}")
+    ch.mark_nontrivial(dtype != "float64")
+
+
 LAWS = [
     Law("catalogue", law_catalogue, quick=3000, thorough=50000,
         doc="dtype table over the operation catalogue (1-3 chained ops)"),
@@ -304,6 +369,9 @@ LAWS = [
         doc="to_dense / fill_missing_blocks / fuse (insert, concat) / fused "
             "contraction / reshape on sparse single-precision and complex "
             "data: dtype of every block and exact values"),
+    Law("linalg", law_linalg, quick=1200, thorough=16000,
+        doc="eigh / qr / svd / svd_truncated / solve on generated matrices "
+            "(size-one sectors included) at all four dtypes"),
     Law("mixed", law_mixed, quick=800, thorough=10000,
         doc="blocks of mixed real/complex dtype through fuse (all "
             "strategies), to_dense, fused contraction: imaginary parts kept"),
